@@ -1,6 +1,6 @@
 # Shared machinery of the /verif checks: builds (C++ library from /repo's working tree,
 # Coq development, extracted OCaml models), evidence and verdict handling.
-import hashlib, json, os, re, shutil, subprocess, sys, time, glob, random
+import contextlib, fcntl, hashlib, json, os, re, shutil, subprocess, sys, time, glob, random
 
 ROOT = os.path.dirname(os.path.dirname(os.path.abspath(__file__)))
 REPO = os.environ.get("VERIF_REPO", "/repo")
@@ -57,7 +57,25 @@ def _load_json(p, default):
 # C++: library from /repo's working tree, incremental by content hash
 # ----------------------------------------------------------------------------------------
 
+@contextlib.contextmanager
+def flock(name):
+    """Exclusive inter-process lock (several checks may run at the same time and share build/ and coq/)."""
+    os.makedirs(BUILD, exist_ok=True)
+    f = open(os.path.join(BUILD, ".lock_" + name), "w")
+    try:
+        fcntl.flock(f, fcntl.LOCK_EX)
+        yield
+    finally:
+        fcntl.flock(f, fcntl.LOCK_UN)
+        f.close()
+
+
 def build_lib(variant="plain"):
+    with flock("lib_" + variant):
+        return _build_lib(variant)
+
+
+def _build_lib(variant="plain"):
     """Compile /repo/src/*.cpp (current working tree) with -DCOLVARS_VERIF into
     build/<variant>/libcolvars_verif.a; recompiles what changed (all, when a header changed)."""
     flags = CXX_VARIANTS[variant]
@@ -120,8 +138,13 @@ def build_lib(variant="plain"):
 
 
 def build_prog(name, sources, variant="plain", extra=None):
-    """Build a harness program from sources (paths relative to /verif) against the library."""
     lib = build_lib(variant)
+    with flock("prog_" + variant + "_" + name):
+        return _build_prog(lib, name, sources, variant, extra)
+
+
+def _build_prog(lib, name, sources, variant="plain", extra=None):
+    """Build a harness program from sources (paths relative to /verif) against the library."""
     out = os.path.join(BUILD, variant, "bin")
     os.makedirs(out, exist_ok=True)
     exe = os.path.join(out, name)
@@ -189,8 +212,9 @@ def coq_gate(files=None):
 def coq_make(targets, timeout=3000):
     """make -k the given .vo targets (relative to coq/). Returns (rc, log)."""
     coq_project()
-    rc, o, e = sh(["make", "-k", "-j%d" % NPROC] + targets, cwd=COQ, timeout=timeout,
-                  env={"TIMED": ""})
+    with flock("coq"):
+        rc, o, e = sh(["make", "-k", "-j%d" % NPROC] + targets, cwd=COQ, timeout=timeout,
+                      env={"TIMED": ""})
     return rc, o + "\n" + e
 
 
@@ -206,11 +230,17 @@ def coq_check_properties(pid, propfile):
     res = {"theorems": thms, "discharged": [], "failed": [], "assumptions": {}, "log": "", "gate": []}
     res["gate"] = coq_gate()
     # dependencies
-    rc, o, e = sh(["make", "-k", "-j%d" % NPROC, rel[:-2] + ".vo"], cwd=COQ, timeout=3000)
+    with flock("coq"):
+        rc, o, e = sh(["make", "-k", "-j%d" % NPROC, rel[:-2] + ".vo"], cwd=COQ, timeout=3000)
     res["log"] = (o + "\n" + e)[-8000:]
     if rc == 0:
-        # recompile the property file to capture assumptions
-        rc2, o2, e2 = sh(["coqc", "-Q", ".", "CV", "-w", "-notation-overridden,-deprecated,-ambiguous-paths", rel], cwd=COQ, timeout=1200)
+        # recompile the property file to capture assumptions (output to a private file: other checks may read the .vo)
+        import tempfile
+        os.makedirs(BUILD, exist_ok=True)
+        tmpd = tempfile.mkdtemp(prefix="props_%s_" % pid, dir=BUILD)
+        rc2, o2, e2 = sh(["coqc", "-Q", ".", "CV", "-w", "-notation-overridden,-deprecated,-ambiguous-paths",
+                          "-o", os.path.join(tmpd, os.path.basename(rel)[:-2] + ".vo"), rel], cwd=COQ, timeout=1200)
+        shutil.rmtree(tmpd, ignore_errors=True)
         res["log"] += "\n" + (o2 + e2)[-8000:]
         if rc2 == 0:
             res["discharged"] = list(thms)
@@ -247,8 +277,12 @@ def extract_model(pid, extract_v, driver_ml, extra_ml=()):
     if rc != 0:
         raise ModelBroken("extraction of %s failed:\n%s" % (extract_v, (o + e)[-4000:]))
     # clean stray outputs that make may have put in coq/
-    for f in glob.glob(os.path.join(COQ, "*.ml")) + glob.glob(os.path.join(COQ, "*.mli")):
-        os.remove(f)
+    with flock("coq"):
+        for f in glob.glob(os.path.join(COQ, "*.ml")) + glob.glob(os.path.join(COQ, "*.mli")):
+            try:
+                os.remove(f)
+            except OSError:
+                pass
     srcs = []
     for f in sorted(glob.glob(os.path.join(d, "*.mli"))):
         pass
